@@ -66,6 +66,35 @@ def spec_maps(cigar, strand):
 CIGARS = ["M40", "M10 I2 M12 D3 M16", "M5 D4 M35", "M30 I3 M7"]
 
 
+def alignment_strings():
+    """Quick: four fixed strings. Thorough: plus seeded random strings consuming exactly the 40 RefSeq bases."""
+    import random
+
+    from sa.report import seed, thorough
+
+    out = list(CIGARS)
+    if thorough():
+        rnd = random.Random(seed())
+        for _ in range(24):
+            left, toks = len(SEQ), []
+            while left > 0:
+                m = min(left, rnd.randint(1, 12))
+                toks.append(f"M{m}")
+                left -= m
+                if left > 0:
+                    if rnd.random() < 0.5:
+                        i = min(left - 1, rnd.randint(1, 3)) if left > 1 else 0
+                        if i:
+                            toks.append(f"I{i}")
+                            left -= i
+                    else:
+                        toks.append(f"D{rnd.randint(1, 4)}")
+            if toks[-1][0] != "M":
+                toks.pop()
+            out.append(" ".join(toks))
+    return out
+
+
 def yml_for(strand, cigar):
     glen = spec_maps(cigar, 1 if strand == "+" else -1)[2]
     return {"name": "G", "version": "1", "generated": "x", "pharmvar": None, "ensembl": None,
@@ -97,7 +126,7 @@ def r3(repo, res):
     gi = repo.func("gene::Gene.__getitem__")
     res.analysed(f, gi)
     n = 0
-    for strand, cigar in itertools.product("+-", CIGARS):
+    for strand, cigar in itertools.product("+-", alignment_strings()):
         s = 1 if strand == "+" else -1
         try:
             me, _ = fold_init_basic(repo, strand, cigar)
@@ -163,8 +192,11 @@ def apply_variant(seq, p, op):
 
 
 def sample_variants():
+    from sa.report import thorough
+
     out = []
-    for p in (3, 11, 24, 37):  # 1-based RefSeq positions
+    positions = range(2, 38) if thorough() else (3, 11, 24, 37)
+    for p in positions:  # 1-based RefSeq positions
         b = SEQ[p - 1]
         alt = {"A": "C", "C": "G", "G": "T", "T": "A"}[b]
         out.append((p, f"{b}>{alt}"))
